@@ -53,6 +53,7 @@ def prepare(spec):
             datas.append(''.join(rnd.choice(alph) for _ in range(rnd.randint(0, 8))).encode('latin-1'))
         seen = set(); uniq = []
         for d in datas:
+            if cfg.get('max_len') is not None and len(d) > cfg['max_len']: continue
             if d not in seen: seen.add(d); uniq.append(d)
         inputs.append(uniq)
     return gs, tbs, inputs
@@ -297,9 +298,10 @@ def judge_c14(spec, gs, tbs, inputs, diags, dumps, maps, tdiffs, byk, jobs, info
         if not parseable(gi, gs, tbs, diags, tdiffs, need_match=False): C['grammars_skipped'] += 1; continue
         tb = tbs[gi]
         for idx, data in enumerate(inputs[gi]):
-            r = byk.get((gi, idx, 0))
+            r = byk.get((gi, idx, 0)) or byk.get((gi, idx, 11))
             if r is None: continue
             C['evaluations'] += 1
+            if r.mode == 11: C['runs_on_fixed_size_stacks'] += 1
             nvals = r.events.count('=')
             C['values_tracked'] += nvals
             path = 'success' if r.res == 1 else ('recovery' if '] PARSE: Syntax error' in r.stream and g.has_error() else 'failure')
@@ -307,6 +309,8 @@ def judge_c14(spec, gs, tbs, inputs, diags, dumps, maps, tdiffs, byk, jobs, info
             if nvals >= 2: out['distinct'].append(common.sha(g.key(), data)[:12])
             ids = _ARGID.findall(r.events)
             probs = []
+            if r.res == -1 and 'capacity' in r.extra:
+                C['fixed_stack_capacity_exceeded_left_to_C12'] += 1; continue       # the recorded stack-capacity finding (D6) is C07/C12's subject
             if r.res == -1: probs.append('parse threw %s (a value was looked up in the wrong slot)' % r.extra[:80])
             if r.objs_alive != 0: probs.append('%d tracked objects not destroyed after the parse' % r.objs_alive)
             if r.payload_live != 0: probs.append('%d values still owned after the result was dropped (leak or double release)' % r.payload_live)
@@ -315,7 +319,7 @@ def judge_c14(spec, gs, tbs, inputs, diags, dumps, maps, tdiffs, byk, jobs, info
             if '&' in r.events: probs.append('a value was handed to a functor as a non-movable reference')
             if len(set(ids)) != len(ids): probs.append('a value was consumed by two functor calls')
             if probs:
-                viol(out, g, data, 0, '; '.join(probs) + ' (log %s)' % r.events[:300], observed=r.events)
+                viol(out, g, data, r.mode, '; '.join(probs) + ' (log %s)' % r.events[:300], observed=r.events)
         if len(out['samples']) < 2 and inputs[gi]:
             r = byk.get((gi, len(inputs[gi]) - 1, 0))
             if r: out['samples'].append({'grammar': g.text(), 'vtypes': g.vtypes, 'input': inputs[gi][-1].decode('latin-1'), 'log': r.events[:300], 'objs_alive': r.objs_alive, 'copies': r.copies})
